@@ -174,6 +174,23 @@ Section FromLists.
     - destruct (IH lls lps ws s Hok' Hin) as [r' [H1 H2]]. exists r'; split; simpl; auto.
   Qed.
 
+  Lemma from_lists_weight_in : forall paths rows lls lps ws s,
+    In s (from_lists V paths rows lls lps ws) -> In (s_w s) ws.
+  Proof.
+    intros paths rows; induction rows as [|r rows IH]; intros lls lps ws s Hin; simpl in Hin; [contradiction|].
+    destruct lls as [|l lls]; [contradiction|]. destruct lps as [|p lps]; [contradiction|].
+    destruct ws as [|w ws]; [contradiction|].
+    destruct Hin as [<-|Hin]; [left; reflexivity | right; eapply IH; eauto].
+  Qed.
+
+  Lemma from_lists_length_le : forall paths rows lls lps ws,
+    length (from_lists V paths rows lls lps ws) <= length rows.
+  Proof.
+    intros paths rows; induction rows as [|r rows IH]; intros lls lps ws; simpl; [lia|].
+    destruct lls; [simpl; lia|]. destruct lps; [simpl; lia|]. destruct ws; [simpl; lia|]. simpl.
+    specialize (IH lls lps ws). lia.
+  Qed.
+
   Lemma rows_ok_concat paths (ll : list (list (list V))) :
     Forall (rows_ok paths) ll -> rows_ok paths (concat ll).
   Proof.
